@@ -43,6 +43,8 @@ def check_sources(rep, prog):
     ci = prog.cls('pgpy.constants', 'SymmetricKeyAlgorithm')
     for name, size in (('gen_iv', 'block_size'), ('gen_key', 'key_size')):
         f = ci.methods.get(name)
+        if f is None and isinstance(ci.attrs.get(name), ast.Name):
+            f = ci.methods.get(ci.attrs[name].id)           # `gen_key = gen_iv` in the class body: the aliased method IS gen_key
         if f is None:
             raise AnalysisError('SymmetricKeyAlgorithm.%s vanished' % name)
         rep.saw(fn=f)
@@ -283,6 +285,7 @@ def check_ecdh(rep, prog):
             if v in rest:
                 kept.append('%s = %s' % (p, val[:80]))
         r = re.sub(re.escape(v) + r'\.(public_key|exchange)\(', '<USE>(', render(s.ret) if s.ret is not None else '')
+        kept += [t for k, t, l in taint.captured_leaks(fi, s, v) if k == 'closure']
         rep.check(not kept and v not in r, 'C13.2', 'ECDHCipherText.encrypt', 'ephemeral key kept: %s' % kept,
                   'the ephemeral private key must not outlive the call (it is single-use)', where=fi.where, scenario=scen, found=kept)
         # the peer is the recipient's public key
@@ -314,7 +317,7 @@ def check_confinement(rep, prog):
         outs = run_roles(prog, fi, roles, vararg=va, kwarg='prefs', args=args, bind=bind)
         bad = []
         for s in outs:
-            for kind, text, line in taint.leaks(s, name, CARRIERS, sanitizers=SANITIZERS, global_names=gl):
+            for kind, text, line in taint.leaks(s, name, CARRIERS, sanitizers=SANITIZERS, global_names=gl) + taint.captured_leaks(fi, s, name):
                 if (kind, text) not in [(b[0], b[1]) for b in bad]:
                     bad.append((kind, text, line))
         if cls in ('PGPMessage', 'PGPKey'):
